@@ -421,6 +421,15 @@ def bit_binop(E, op, a, b):
         if op == "<<":
             return int_from_cells(ca + [0] * b)
         return int_from_cells(ca[: len(ca) - b] if b < len(ca) else [0])
+    # x & ~m with a concrete negative mask (two's complement, infinitely sign-extended): clears the bits of m
+    if op == "&" and isinstance(b, int) and not isinstance(b, bool) and b < 0 and not isinstance(a, int):
+        a2 = _bounded_nonneg(E, a)
+        ca = int_cells(a2)
+        if ca is not None:
+            w = len(ca)
+            return int_from_cells([c if (b >> (w - 1 - i)) & 1 else 0 for i, c in enumerate(ca)])
+    if op == "&" and isinstance(a, int) and not isinstance(a, bool) and a < 0 and not isinstance(b, int):
+        return bit_binop(E, op, b, a)
     a = _bounded_nonneg(E, a)
     b = _bounded_nonneg(E, b)
     ca, cb = int_cells(a), int_cells(b)
@@ -1237,6 +1246,25 @@ def get_method(E, obj, name):
         fn = STR_METHODS.get(name)
         if fn is not None:
             return Builtin("str." + name, lambda E, a, k, fn=fn, obj=obj: fn(E, obj, a, k))
+        if hasattr(str, name) and isinstance(obj, str) and not name.startswith("__"):
+            # a concrete string: run the real method when the arguments are concrete too
+            def native_str_method(E, a, k, obj=obj, name=name):
+                args = [E.force(x) for x in a]
+                kws = {kk: E.force(vv) for kk, vv in k.items()}
+                ok = lambda v: v is None or isinstance(v, (str, int, bool)) or \
+                    (isinstance(v, tuple) and all(isinstance(x, (str, int)) for x in v))
+                if not all(ok(v) for v in args) or not all(ok(v) for v in kws.values()):
+                    raise Unsupported("str.%s with symbolic arguments" % name)
+                try:
+                    r = getattr(obj, name)(*args, **kws)
+                except Exception as ex:
+                    raise PyExc(type(ex).__name__, str(ex))
+                if isinstance(r, list):
+                    return E.new_heap(SList(list(r)))
+                if isinstance(r, (str, int, bool, tuple)) or r is None:
+                    return r
+                raise Unsupported("result of str.%s" % name)
+            return Builtin("str." + name, native_str_method)
         if hasattr(str, name):
             raise Unsupported("str.%s is not modelled" % name)
         raise PyExc("AttributeError", "'str' object has no attribute %r" % name)
@@ -1270,6 +1298,8 @@ def get_method(E, obj, name):
             return tuple(obj.args or ())
     if obj is None:
         raise PyExc("AttributeError", "'NoneType' object has no attribute %r" % name)
+    if isinstance(obj, int) and not isinstance(obj, bool) and name in ("bit_length", "bit_count"):
+        return Builtin("int." + name, lambda E, a, k, obj=obj, name=name: getattr(obj, name)())
     if isinstance(obj, (int, Fraction, SInt, SReal, bool, SBool)):
         if hasattr(int, name) or hasattr(float, name):
             raise Unsupported("number.%s is not modelled" % name)
@@ -1853,8 +1883,58 @@ def make_numpy():
 
 
 
+def _bisect(side):
+    def f(E, args, kw):
+        a = E.force(args[0])
+        x = E.force(args[1])
+        items = [E.force(v) for v in E.iterate(a)]
+        lo_ = E.concretize_int(E.force(args[2]), "bisect lo") if len(args) > 2 else kw.get("lo", 0)
+        hi_ = E.concretize_int(E.force(args[3]), "bisect hi") if len(args) > 3 else kw.get("hi", len(items))
+        if kw.get("key") is not None:
+            raise Unsupported("bisect with key")
+        if not all(isinstance(v, (int, Fraction)) and not isinstance(v, bool) for v in items):
+            raise Unsupported("bisect on a list with symbolic or non-numeric items")
+        if any(items[i] > items[i + 1] for i in range(len(items) - 1)):
+            raise Unsupported("bisect on an unsorted list")
+        import ast as _ast
+        total = lo_
+        for v in items[lo_:hi_]:
+            c = E.compare(_ast.LtE() if side == "right" else _ast.Lt(), v, x)
+            if isinstance(c, bool):
+                total = binop(E, "+", total, 1 if c else 0)
+            else:
+                total = binop(E, "+", total, E.vmerge(c, 1, 0))
+        return total
+    return f
+
+
+def make_bisect():
+    return StubModule("bisect", {
+        "bisect_right": Builtin("bisect.bisect_right", _bisect("right")),
+        "bisect": Builtin("bisect.bisect", _bisect("right")),
+        "bisect_left": Builtin("bisect.bisect_left", _bisect("left")),
+    })
+
+
+def math_ceil(E, args, kw):
+    x = E.force(args[0])
+    return binop(E, "-", 0, b_int(E, [np_floor(E, [binop(E, "-", 0, x)], {})], {}))
+
+
+def math_hypot(E, args, kw):
+    x, y = E.force(args[0]), E.force(args[1])
+    return np_sqrt(E, [binop(E, "+", binop(E, "*", x, x), binop(E, "*", y, y))], {})
+
+
 def make_math():
     return StubModule("math", {
+        "cos": Builtin("math.cos", _real_fn1("cos", lambda x: Fraction(1) if x == 0 else None)),
+        "sin": Builtin("math.sin", _real_fn1("sin", lambda x: Fraction(0) if x == 0 else None)),
+        "acos": Builtin("math.acos", _real_fn1("arccos")),
+        "exp": Builtin("math.exp", _real_fn1("exp", lambda x: Fraction(1) if x == 0 else None)),
+        "fabs": Builtin("math.fabs", b_abs),
+        "ceil": Builtin("math.ceil", math_ceil),
+        "hypot": Builtin("math.hypot", math_hypot),
         "sqrt": Builtin("math.sqrt", np_sqrt),
         "atan2": Builtin("math.atan2", math_atan2),
         "degrees": Builtin("math.degrees", np_degrees),
